@@ -168,3 +168,107 @@ Example C02_nonvacuous :
     = Ok [[VInt 1; VInt 1]; [VInt 2; VNull]; [VNull; VNull]].
 Proof. repeat split; vm_compute; reflexivity. Qed.
 Print Assumptions C02_nonvacuous.
+
+(* ---------------------------------------------------------------------------------------------------------
+   exec_refines_definition (fragment).  Phys/C02Exec.v models the row iterators of sql/rowexec and sql/iters
+   (table scan, FilterIter, ProjectIter, joinIter inner / left outer, crossJoinIterator, distinctIter,
+   groupByGroupingIter with count / sum / min / max / avg / count-distinct buffers, sortIter, LimitIter,
+   offsetIter, UnionIter, IntersectIter, per-row InSubquery / ExistsSubquery / scalar Subquery) as an executor
+   [exec] of physical plans, and [plan_of] compiles a C02 query to the plan without optimisations.
+   Whenever the definition assigns rows to a query, its plan returns exactly these rows in the same order
+   (hence also the same bag), in every environment of outer rows.
+   _partial: [wf_query] excludes RIGHT JOIN, EXCEPT [ALL] and INTERSECT DISTINCT; queries on which the
+   definition raises an error are not constrained (converse not proved); sortIter is the definition's own
+   stable insertion sort; the hash-lookup join is not produced by [plan_of]; the planner's rewrites are not modelled. *)
+From GMS Require Import Phys.C02Exec Phys.C02ExecProofs.
+
+Theorem C02_exec_refines_definition_partial :
+  forall d en q rows,
+    wf_query q = true -> eval_query d en q = Ok rows -> exec_env d en (plan_of q) = Ok rows.
+Proof. exact exec_refines_definition. Qed.
+Print Assumptions C02_exec_refines_definition_partial.
+
+(* top level: sequence under ORDER BY, bag otherwise (the two comparisons of the differential run) *)
+Theorem C02_exec_refines_definition_bag_partial :
+  forall d q rows,
+    wf_query q = true -> eval_query d [] q = Ok rows ->
+    exists out, exec d (plan_of q) = Ok out /\ Permutation out rows /\
+                (forall q' keys lim, q = QOrder q' keys lim -> out = rows).
+Proof. exact exec_refines_bag. Qed.
+Print Assumptions C02_exec_refines_definition_bag_partial.
+
+(* expressions, including per-row IN / EXISTS / scalar subqueries *)
+Theorem C02_expr_refines_definition_partial :
+  forall d en e v,
+    wf_expr e = true -> eval_expr d en e = Ok v -> eval_pexpr d en (cexpr e) = Ok v.
+Proof. exact expr_refines_definition. Qed.
+Print Assumptions C02_expr_refines_definition_partial.
+
+(* per-operator facts *)
+Theorem C02_filter_iter_keeps_true_rows :
+  forall ev rows kept, filter_iter ev rows = Ok kept ->
+    forall rw, In rw kept <-> (In rw rows /\ cond_true (ev rw) = Ok true).
+Proof. exact filter_iter_true. Qed.
+Print Assumptions C02_filter_iter_keeps_true_rows.
+
+Theorem C02_join_iter_left_pads :
+  forall ev ev' wr L R rows, sub ev ev' ->
+    outer_join (fun rw => holds (ev rw)) (fun l r => l ++ r) (fun l => l ++ nulls wr) L R = Ok rows ->
+    join_iter ev' true wr L R = Ok rows.
+Proof. exact left_join_ok. Qed.
+Print Assumptions C02_join_iter_left_pads.
+
+Theorem C02_distinct_iter_is_dedup :
+  forall rows, distinct_iter [] rows = dedup row_eqb rows.
+Proof. exact distinct_iter_ok. Qed.
+Print Assumptions C02_distinct_iter_is_dedup.
+
+Theorem C02_agg_buffer_is_aggregate :
+  forall f args av, agg f args = Ok av ->
+    exists b, foldM (buf_update f) args (buf_init f) = Ok b /\ buf_eval b = av.
+Proof. exact agg_stream. Qed.
+Print Assumptions C02_agg_buffer_is_aggregate.
+
+Theorem C02_limit_offset_iter_is_slice :
+  forall n off rows, limit_iter O n (offset_iter off rows) = firstn n (skipn off rows).
+Proof. exact limit_offset_ok. Qed.
+Print Assumptions C02_limit_offset_iter_is_slice.
+
+Theorem C02_intersect_iter_is_intersect_all :
+  forall l r, intersect_iter l r = inter_all row_eqb l r.
+Proof. exact intersect_iter_ok. Qed.
+Print Assumptions C02_intersect_iter_is_intersect_all.
+
+Theorem C02_in_loop_is_in3 :
+  forall x ys, in_loop x ys false false = in3 x ys.
+Proof. exact in_loop_in3. Qed.
+Print Assumptions C02_in_loop_is_in3.
+
+(* non-vacuity: t0(id, grp), t1(id, amount);
+   SELECT grp, COUNT( * ), SUM(amount), MIN(amount), AVG(amount), COUNT(DISTINCT t1.id)
+   FROM t0 LEFT JOIN t1 ON t0.id = t1.id
+   WHERE t0.id IN (SELECT DISTINCT id FROM t1) OR EXISTS (SELECT id FROM t1 WHERE t1.amount < t0.id)
+   GROUP BY grp HAVING COUNT( * ) >= 1 ORDER BY 1 LIMIT 5 OFFSET 0
+   is in the fragment, the definition gives it two rows, and so does the executor. *)
+Definition ex2_db : db :=
+  [(2%nat, [[VInt 1; VInt 10]; [VInt 2; VInt 10]; [VInt 3; VInt 20]; [VNull; VInt 20]; [VInt 5; VNull]]);
+   (2%nat, [[VInt 1; VDec 150 2]; [VInt 1; VDec 250 2]; [VInt 3; VDec 400 2]; [VInt 7; VDec 100 2]; [VNull; VDec 999 2]])].
+Definition ex2_join : query := QJoin JLeft (QTable 0) (QTable 1) (ECmp OEq (ECol 0 0) (ECol 0 2)).
+Definition ex2_where : expr :=
+  EOr (EInQ (ECol 0 0) (QSelect (QTable 1) (EConst (VInt 1)) [ECol 0 0] true))
+      (EExists (QSelect (QTable 1) (ECmp OLt (ECol 0 1) (ECol 1 0)) [ECol 0 0] false)).
+Definition ex2_q : query :=
+  QOrder (QGroup ex2_join ex2_where [ECol 0 1]
+            [(ACountStar, EConst (VInt 1)); (ASum, ECol 0 3); (AMin, ECol 0 3); (AAvg, ECol 0 3); (ACountDistinct, ECol 0 2)]
+            (ECmp OGe (ECol 0 1) (EConst (VInt 1)))
+            [ECol 0 0; ECol 0 1; ECol 0 2; ECol 0 3; ECol 0 4; ECol 0 5] false)
+         [(0%nat, false)] (Some (5%nat, 0%nat)).
+Example C02_exec_refines_nonvacuous :
+  wf_query ex2_q = true /\
+  eval_query ex2_db [] ex2_q =
+    Ok [[VNull; VInt 1; VNull; VNull; VNull; VInt 0];
+        [VInt 10; VInt 3; VDec 400 2; VDec 150 2; VDec 2000000 6; VInt 1];
+        [VInt 20; VInt 1; VDec 400 2; VDec 400 2; VDec 4000000 6; VInt 1]] /\
+  exec ex2_db (plan_of ex2_q) = eval_query ex2_db [] ex2_q.
+Proof. repeat split; vm_compute; reflexivity. Qed.
+Print Assumptions C02_exec_refines_nonvacuous.
